@@ -8,8 +8,8 @@ CONSTANTS
   OfferSets <- OffersSmall
   Lives = {0, 2, 4}
   TPS = 2
-  MaxClock = 5
-  MaxCalls = 3
+  MaxClock = 4
+  MaxCalls = 2
   MaxTok = 2
   MaxRT = 2
   Bodies = {"plain"}
